@@ -289,3 +289,15 @@ def c08_blank_codespan(case, rr):
     obs = rr.get("observed") or {}
     b, a = _fp_diff(obs)
     return any(isinstance(x, list) and x[0] == "codespan" and x[1] == "" for x in b) and not any(isinstance(x, list) and x[0] == "codespan" and x[1] == "" for x in a)
+
+
+@matcher
+def html_diff(case, rr, doc_regex=None, pym_regex=None):
+    import re
+
+    obs = rr.get("observed") or {}
+    if doc_regex and not re.search(doc_regex, obs.get("doc") or "", re.S):
+        return False
+    if pym_regex and not re.search(pym_regex, obs.get("pymarkdown") or "", re.S):
+        return False
+    return True
